@@ -27,6 +27,16 @@ pub struct Case { pub lens: Vec<usize>, pub cuts: Vec<usize>, pub gap: u64, pub 
 /// PDU; variant 5: the rectangle has 4200 pixels (a PDU of more than 16384 bytes)
 /// the frames entry `i` of `lens` stands for (one bitmap PDU, for variant 3 preceded by a quiet PDU)
 fn frames_of(i: usize, n: usize) -> Vec<Vec<u8>> {
+    if n / 100 == 6 {
+        // a re-activation in the middle of the session: one MCS frame carrying TWO share-control PDUs (save-session-info,
+        // then deactivate-all), a demand-active with a new share id, the four finalization PDUs, then the bitmap PDU
+        let sid2 = 0x000103ebu32 + i as u32;
+        let two = { let mut v = refsrv::share_data(0x103ea, 0x26, &[0x5a; 8]); v.extend(refsrv::deactivate_all(0x103ea, b"RDP\0")); refsrv::mcs_sdin(1003, &v) };
+        let mut fs = vec![two, refsrv::mcs_sdin(1003, &refsrv::demand_active(sid2, b"RDP\0", &conn::default_caps()))];
+        for b in &[refsrv::synchronize(sid2, 1002), refsrv::control(sid2, 4, 0, 0), refsrv::control(sid2, 2, 1004, 0x03ea), refsrv::font_map(sid2)] { fs.push(refsrv::mcs_sdin(1003, b)); }
+        fs.push(pdu(i, n % 100));
+        return fs;
+    }
     if n / 100 == 3 { let both = pdu(i, n); let q = quiet_pdu().len(); return vec![both[..q].to_vec(), both[q..].to_vec()]; }
     vec![pdu(i, n)]
 }
@@ -52,11 +62,17 @@ fn end_bytes(mode: &str) -> Vec<u8> {
     }
 }
 
-pub struct Outcome { pub silent: Vec<u16>, pub fin: Vec<u16>, pub exited: bool, pub status: String, pub lens: Vec<usize>, pub quiet: Vec<usize>, pub inputs_done: usize, pub inputs_asked: bool, pub alens: Vec<usize> }
+pub struct Outcome { pub silent: Vec<u16>, pub fin: Vec<u16>, pub exited: bool, pub status: String, pub lens: Vec<usize>, pub quiet: Vec<usize>, pub inputs_done: usize, pub inputs_asked: bool, pub alens: Vec<usize>, pub das: Vec<usize>, pub ca: usize }
 
 pub fn run(c: &Case) -> Outcome {
     let mut pdus: Vec<Vec<u8>> = vec![]; let mut quiet: Vec<usize> = vec![];
-    for (i, n) in c.lens.iter().enumerate() { let fs = frames_of(i, *n); if fs.len() == 2 { quiet.push(pdus.len()); } pdus.extend(fs); }
+    let mut das: Vec<usize> = vec![];
+    for (i, n) in c.lens.iter().enumerate() {
+        let fs = frames_of(i, *n);
+        if fs.len() == 2 { quiet.push(pdus.len()); }
+        if fs.len() == 7 { for k in 0..6 { quiet.push(pdus.len() + k); } das.push(pdus.len() + 1); }
+        pdus.extend(fs);
+    }
     let lens: Vec<usize> = pdus.iter().map(|p| p.len()).collect();
     let mut stream: Vec<u8> = pdus.concat();
     let endb = end_bytes(&c.end);
@@ -86,7 +102,7 @@ pub fn run(c: &Case) -> Outcome {
     let fd = a.as_raw_fd() as usize;
     let rawlog = Arc::new(Mutex::new(vec![]));
     let th = std::thread::spawn(move || conn::serve(b, srv, vec![0; 16], rawlog));
-    let mut out = Outcome { silent: vec![], fin: vec![], exited: false, status: "ok".into(), lens, quiet, inputs_done: 0, inputs_asked: c.inputs, alens };
+    let mut out = Outcome { silent: vec![], fin: vec![], exited: false, status: "ok".into(), lens, quiet, inputs_done: 0, inputs_asked: c.inputs, alens, das, ca: 0 };
     let mut con = Connector::new().screen(cfg.w, cfg.h).credentials(cfg.dom.clone(), cfg.user.clone(), cfg.pw.clone()).use_nla(false).layout(conn::layout_of(cfg.lay)).name(cfg.name.clone());
     let mut client = match con.connect(a) { Ok(c) => c, Err(e) => { out.status = format!("E@connect:{:?}", e); let _ = th.join(); return out; } };
     if c.act == 0 { for i in 0..5 { if let Err(e) = client.read(|_| {}) { out.status = format!("E@read{}:{:?}", i, e); drop(client); let _ = th.join(); return out; } } }
@@ -121,22 +137,26 @@ pub fn run(c: &Case) -> Outcome {
     sync.store(false, std::sync::atomic::Ordering::Relaxed);
     if out.exited { let _ = handle.join(); }
     drop(shared);
-    let _ = th.join();
+    // what the server received in all: every demand-active must have been answered with a confirm-active
+    if let Ok(log) = th.join() {
+        out.ca = log.frames.iter().filter(|f| f.len() > 18 && f[7] == 0x64 && { let off = if f[13] & 0x80 != 0 { 15 } else { 14 }; f.len() > off + 4 && f[off + 2] == 0x13 && f[off + 3] == 0 }).count();
+    }
     out
 }
 
 fn show(v: &[u16]) -> String { if v.is_empty() { "-".into() } else { v.iter().map(|x| x.to_string()).collect::<Vec<_>>().join(".") } }
 
-pub fn line_of(c: &Case, lens: &[usize], quiet: &[usize], alens: &[usize]) -> String {
-    format!("gui act={} alens={} lens={} cuts={} gap={} end={} endpack={} inputs={} plens={} quiet={}", c.act, if alens.is_empty() { "-".to_string() } else { alens.iter().map(|x| x.to_string()).collect::<Vec<_>>().join(",") }, c.lens.iter().map(|x| x.to_string()).collect::<Vec<_>>().join(","),
-        if c.cuts.is_empty() { "-".into() } else { c.cuts.iter().map(|x| x.to_string()).collect::<Vec<_>>().join(",") }, c.gap, c.end, c.endpack as u8, c.inputs as u8,
-        lens.iter().map(|x| x.to_string()).collect::<Vec<_>>().join(","), if quiet.is_empty() { "-".to_string() } else { quiet.iter().map(|x| x.to_string()).collect::<Vec<_>>().join(",") })
+pub fn line_of(c: &Case, lens: &[usize], quiet: &[usize], alens: &[usize]) -> String { line_of_d(c, lens, quiet, alens, &[]) }
+pub fn line_of_d(c: &Case, lens: &[usize], quiet: &[usize], alens: &[usize], das: &[usize]) -> String {
+    let j = |v: &[usize]| if v.is_empty() { "-".to_string() } else { v.iter().map(|x| x.to_string()).collect::<Vec<_>>().join(",") };
+    format!("gui das={} act={} alens={} lens={} cuts={} gap={} end={} endpack={} inputs={} plens={} quiet={}", j(das), c.act, j(alens),
+        c.lens.iter().map(|x| x.to_string()).collect::<Vec<_>>().join(","), j(&c.cuts), c.gap, c.end, c.endpack as u8, c.inputs as u8, j(lens), j(quiet))
 }
 
 fn emit_outcome(em: &mut Emitter, c: &Case, o: Outcome) {
-    let line = line_of(c, &o.lens, &o.quiet, &o.alens);
+    let line = line_of_d(c, &o.lens, &o.quiet, &o.alens, &o.das);
     let inp = if !o.inputs_asked { "-" } else if o.inputs_done > 0 { "ok" } else { "blocked" };
-    let out = if o.status == "ok" { format!("silent={} final={} exit={} in={}", show(&o.silent), show(&o.fin), if o.exited { "yes" } else { "no" }, inp) } else { o.status.clone() };
+    let out = if o.status == "ok" { format!("silent={} final={} exit={} in={} ca={}", show(&o.silent), show(&o.fin), if o.exited { "yes" } else { "no" }, inp, o.ca) } else { o.status.clone() };
     let mut obs = Obs::new(out).nt(o.status == "ok").tag(Box::leak(c.end.clone().into_boxed_str()));
     if o.status != "ok" { obs = obs.viol("session setup failed"); }
     em.case(&line, move || obs);
@@ -159,7 +179,7 @@ pub fn generate(thorough: bool, seed: u64, part: (usize, usize), em: &mut Emitte
     for (ei, end) in ends.iter().enumerate() {
         for fam in 0..6 {
             let n = 1 + (fam + ei) % 3;
-            let lens: Vec<usize> = (0..n).map(|k| r.range(1, 6) as usize + 100 * ((fam + k + 2 * ei) % 6)).collect();
+            let lens: Vec<usize> = (0..n).map(|k| r.range(1, 6) as usize + 100 * ((fam + k + 2 * ei) % 7)).collect();
             let plen: Vec<usize> = lens.iter().flat_map(|k| frames_of(0, *k).into_iter().map(|f| f.len()).collect::<Vec<_>>()).collect();
             let bounds: Vec<usize> = plen.iter().scan(0, |a, x| { *a += x; Some(*a) }).collect();
             let (cuts, gap): (Vec<usize>, u64) = match fam {
@@ -170,8 +190,12 @@ pub fn generate(thorough: bool, seed: u64, part: (usize, usize), em: &mut Emitte
                 4 => { let mut v = bounds.clone(); v.extend(bounds.iter().map(|b| b - 5)); (v, 15) } // PDUs split across records
                 _ => ((1..*bounds.last().unwrap()).step_by(7).collect(), 0), // 7-byte records
             };
+            // a re-activation inside the session is sent one PDU per record (the client's answer needs a live peer: with
+            // PDUs left buffered until the server closes, the answer would meet a closed socket)
+            let has_react = lens.iter().any(|x| x / 100 == 6);
+            let (cuts, gap) = if has_react { (bounds.clone(), gap.max(10)) } else { (cuts, gap) };
             for endpack in &[false, true] {
-                if *endpack && (*end == "notify" || *end == "close") { continue; }
+                if *endpack && (*end == "notify" || *end == "close" || has_react) { continue; }
                 cases.push(Case { lens: lens.clone(), cuts: cuts.clone(), gap, end: end.to_string(), endpack: *endpack, inputs: fam % 2 == 1, act: ((fam + 2 * ei + *endpack as usize) % 4) as u8 });
             }
         }
@@ -180,11 +204,13 @@ pub fn generate(thorough: bool, seed: u64, part: (usize, usize), em: &mut Emitte
     let n = if thorough { 600 } else { 40 };
     for _ in 0..n {
         let k = r.range(1, 4) as usize;
-        let lens: Vec<usize> = (0..k).map(|_| r.range(1, 8) as usize + 100 * r.below(6) as usize).collect();
-        let total: usize = lens.iter().map(|x| pdu(0, *x).len()).sum();
+        let lens: Vec<usize> = (0..k).map(|_| r.range(1, 8) as usize + 100 * r.below(7) as usize).collect();
+        let total: usize = lens.iter().map(|x| frames_of(0, *x).iter().map(|f| f.len()).sum::<usize>()).sum();
         let nc = r.below(5) as usize;
-        let cuts: Vec<usize> = (0..nc).map(|_| r.range(1, total as u64 - 1) as usize).collect();
-        cases.push(Case { lens, cuts, gap: *r.pick(&[0u64, 0, 10, 30]), end: r.pick(&ends).to_string(), endpack: r.chance(1, 4), inputs: r.chance(1, 2), act: r.below(4) as u8 });
+        let has_react = lens.iter().any(|x| x / 100 == 6);
+        let cuts: Vec<usize> = if has_react { lens.iter().flat_map(|k| frames_of(0, *k).into_iter().map(|f| f.len()).collect::<Vec<_>>()).scan(0, |a, x| { *a += x; Some(*a) }).collect() }
+            else { (0..nc).map(|_| r.range(1, total as u64 - 1) as usize).collect() };
+        cases.push(Case { lens, cuts, gap: if has_react { 15 } else { *r.pick(&[0u64, 0, 10, 30]) }, end: r.pick(&ends).to_string(), endpack: !has_react && r.chance(1, 4), inputs: r.chance(1, 2), act: r.below(4) as u8 });
     }
     let mine: Vec<Case> = cases.into_iter().enumerate().filter(|(i, _)| i % part.1 == part.0).map(|(_, c)| c).collect();
     // the cases are timing-bound, not CPU-bound: run them concurrently
